@@ -7,6 +7,9 @@ the extracted Coq model (modelrun `hash`: the decorator functors over the hash m
 over the abstract map for the tree backing), reports disagreements through c.report and
 updates c.cov.  Returns the number of histories that agreed."""
 import random
+import subprocess
+
+IMPL_TIMEOUT = 300
 
 CODES = ["m1", "m2", "m3", "m7", "m64"]
 UNORDERED = {"hash", "mhm", "mtm", "builtin", "set"}
@@ -267,7 +270,10 @@ def minimise(c, binary, h):
 
     def failing(cands):
         text = "\n".join(case_line((container, code, eq, o)) for o in cands) + "\n"
-        _, impl, _ = c.run_impl(binary, ["c03"], text)
+        try:
+            _, impl, _ = c.run_impl(binary, ["c03"], text, timeout=IMPL_TIMEOUT)
+        except subprocess.TimeoutExpired:
+            impl = []
         spec = c.run_model("hash-spec", text)
         res = []
         for i in range(len(cands)):
@@ -324,7 +330,7 @@ def examine(c, binary, h, impl_line, model_line, pid_tag):
                   "implementation": api[2], "model": api[3]}, found_input=False)
         return
     if api is not None and lawless:
-        c.report("%s:%s:lawless:%s" % (pid_tag, container, api[1]),
+        c.report("%s:lawless" % pid_tag,
                  "model and implementation differ on a history whose Code/Equals violate the hash law (no theorem applies; the model is not faithful there)",
                  {"kind": "correspondence", "case": case, "op_index": api[0], "field": api[1],
                   "implementation": api[2], "model": api[3]}, found_input=False)
@@ -350,7 +356,17 @@ def examine(c, binary, h, impl_line, model_line, pid_tag):
 def run_batch(c, binary, hs, pid_tag, check_spec=True):
     """run both sides on the histories, compare, search on disagreement. -> (#agreeing, model lines)"""
     text = "\n".join(case_line(h) for h in hs) + "\n"
-    _, impl, err = c.run_impl(binary, ["c03"], text)
+    try:
+        _, impl, err = c.run_impl(binary, ["c03"], text, timeout=IMPL_TIMEOUT)
+    except subprocess.TimeoutExpired as e:
+        # the implementation does not terminate on one of these histories (e.g. a cyclic chain)
+        done = (e.stdout or b"")
+        done = done.decode() if isinstance(done, bytes) else done
+        k = len(done.splitlines())
+        c.report("%s:hang" % pid_tag, "the implementation did not terminate within %ds on history #%d of the batch" % (IMPL_TIMEOUT, k),
+                 {"kind": "history", "case": case_line(hs[k]) if k < len(hs) else None,
+                  "how": "echo '<case>' | harness/bin/h c03"})
+        return 0, []
     model = c.run_model("hash", text)
     spec = c.run_model("hash-spec", text) if check_spec else None
     good = 0
